@@ -107,13 +107,14 @@ def genLitOver (names : List Nat) : Gen ROp := do
   pure (.lit names rows.eraseDups)
 
 def genNames : Gen (List Nat) := do
-  let k := 1 + (← rand 3)
+  let k ← pick [1, 2, 2, 3, 3, 3, 4]
   let all := [0, 1, 2, 3, 4, 5, 6]
   let picked ← genList k (pick all)
   pure (picked.eraseDups.mergeSort (· ≤ ·))
 
 def relOpNames : List String :=
-  ["joinNew", "joinNew", "joinNew", "joinNew", "joinAgain", "joinAgain", "joinAny", "joinAny", "with", "without",
+  ["joinNew", "joinNew", "joinNew", "joinAgain", "joinAgain", "joinAgain", "joinChain", "joinChain", "joinAny", "joinAny",
+   "with", "without",
    "where", "union", "nest", "unnest", "rank", "map", "lit"]
 
 def genRelStep (g : RG) : Gen RG := do
@@ -128,11 +129,16 @@ def genRelStep (g : RG) : Gen RG := do
   let r ← pick rels
   let orElse (o : Option RG) : Gen RG := match o with | some g' => pure g' | none => fallback
   match name with
-  | "joinNew" | "joinAgain" => do
-    -- a partner made for `r`: shares one attribute (with r's own values, one-to-many) and brings a new one; `joinAgain`
-    -- prefers a parent that is itself the result of a join
+  | "joinNew" | "joinAgain" | "joinChain" => do
+    -- a partner made for `r`: shares one attribute (with r's own values, one-to-many) and brings a new one.
+    -- `joinChain`: the parent is itself the result of a join.  `joinAgain`: the parent has ALREADY been the left operand
+    -- of a join — the same parent extended a second time with a different partner (branching), mostly by the same operator.
     let joins := rels.filter (fun x => match g.ops.getD x.i default with | .join .. => true | _ => false)
-    let r ← if name == "joinAgain" && !joins.isEmpty then pick joins else pure r
+    let usedLeft := g.ops.filterMap (fun o => match o with | .join jo i _ => some (i, jo) | _ => none)
+    let again := rels.filter (fun x => usedLeft.any (·.1 = x.i))
+    let r ← if name == "joinChain" && !joins.isEmpty then pick joins
+            else if name == "joinAgain" && !again.isEmpty then pick again else pure r
+    let prevOp := (usedLeft.find? (·.1 = r.i)).map (·.2)
     if !r.allNum then fallback else
     let shared ← pick r.names
     let freshNames := [0, 1, 2, 3, 4, 5, 6].filter (fun n => !r.names.contains n)
@@ -147,8 +153,10 @@ def genRelStep (g : RG) : Gen RG := do
       pure (if withShared then (if shared < nw then [k, v] else [v, k]) else [v]))
     let names := if withShared then (if shared < nw then [shared, nw] else [nw, shared]) else [nw]
     let some g1 := g.push (.lit names rowsNew.eraseDups) (← chance 1 2) | fallback
-    let o ← genJoinOp
-    let flip ← chance 1 5
+    let o ← match prevOp with
+      | some po => do if name == "joinAgain" && (← chance 2 3) then pure po else genJoinOp
+      | none => genJoinOp
+    let flip ← if name == "joinAgain" then pure false else chance 1 5
     orElse (g1.push (if flip then .join o g.n r.i else .join o r.i g.n) useApi)
   | "joinAny" => do
     let r2 ← pick rels
